@@ -35,9 +35,14 @@ Definition fuel := default_fuel.
 (* model validator on the published constants == reference validator on the published files *)
 Definition corr (c : case) : bool :=
   match c with
-  | CDoc f e d _ _ js_s js_l _ _ _ =>
+  | CDoc f e d _ headroom js_s js_l _ _ _ =>
       Bool.eqb (accepts fuel (published f true) e d) js_s &&
-      Bool.eqb (accepts fuel (published f false) e d) js_l
+      Bool.eqb (accepts fuel (published f false) e d) js_l &&
+      (* fuel headroom (unmutated documents): a third of the budget already gives the same verdict, so the
+         budget was not what decided it *)
+      (if headroom then Bool.eqb (accepts (Nat.div fuel 3) (published f true) e d) js_s &&
+                        Bool.eqb (accepts (Nat.div fuel 3) (published f false) e d) js_l
+       else true)
   end.
 
 (* the property on the implementation's behaviour: published schema accepts <-> the Python models accept,
